@@ -240,3 +240,124 @@ M('C15', 'renormalization not updated', TR, '    renormalization *= new_norm\n',
   'TRUNC-svd-theta')
 M('C15', 'from_S uses abs instead of squares', TR, 'eps = np.sum(np.square(S_discarded))',
   'eps = np.sum(np.abs(S_discarded))', 'TRUNC-error-def')
+
+# ---------------------------------------------------------------- C02
+M('C02', 'itranspose keeps sorted flag', NPC,
+  """        self._qdata = np.array(self._qdata[:, axes_arr], order='C')
+        self._qdata_sorted = False""",
+  """        self._qdata = np.array(self._qdata[:, axes_arr], order='C')""", 'FLAG-Q-reset')
+M('C02', 'concatenate claims sorted', NPC, """    res._qdata = np.concatenate(res_qdata, axis=0)
+    res._qdata_sorted = False""", """    res._qdata = np.concatenate(res_qdata, axis=0)
+    res._qdata_sorted = True""", 'FLAG-Q-true-claim')
+M('C02', 'get_block insert keeps flag', NPC,
+  """                self._qdata = np.append(self._qdata, [qindices], axis=0)
+                self._qdata_sorted = False""",
+  """                self._qdata = np.append(self._qdata, [qindices], axis=0)""", 'FLAG-Q-reset')
+M('C02', 'qr shifted inner leg keeps sorted', NPC,
+  """        inner_leg.charges = a.chinfo.make_valid(inner_leg.charges - inner_leg.qconj * qtotal_Q)
+        inner_leg.sorted = False""",
+  """        inner_leg.charges = a.chinfo.make_valid(inner_leg.charges - inner_leg.qconj * qtotal_Q)""",
+  'FLAG-L-reset')
+M('C02', 'flip_charges_qconj keeps sorted', CH,
+  """        res.charges = self.chinfo.make_valid(-self.charges)
+        res.sorted = False""", """        res.charges = self.chinfo.make_valid(-self.charges)""",
+  'FLAG-L-reset')
+M('C02', 'outer_conj keeps sorted (original defect)', CH,
+  "        res.sorted = False  # negating the charges reverses their order\n", '', 'FLAG-L-reset')
+M('C02', 'from_qdict claims sorted (original defect)', CH,
+  '        res.sorted = res.is_sorted()\n        res.bunched = res.is_bunched()\n        return res\n\n    @classmethod\n    def from_add_charge',
+  '        res.sorted = True\n        res.bunched = res.is_bunched()\n        return res\n\n    @classmethod\n    def from_add_charge',
+  'FLAG-L-true-claim')
+M('C02', 'change_charge forgets qtotal (original defect)', NPC,
+  '        res.qtotal = chinfo2.make_valid(self.qtotal)\n', '', 'COUPLED-chinfo')
+M('C02', 'outer subtracts total charges', NPC,
+  'qtotal = a.chinfo.make_valid(a.qtotal + b.qtotal)\n    res = Array(a.legs + b.legs, dtype, qtotal)',
+  'qtotal = a.chinfo.make_valid(a.qtotal - b.qtotal)\n    res = Array(a.legs + b.legs, dtype, qtotal)',
+  'CHARGE-qtotal')
+M('C02', 'take_slice adds removed charge', NPC,
+  'res.qtotal -= self.legs[a].get_charge(qi)', 'res.qtotal += self.legs[a].get_charge(qi)',
+  'CHARGE-qtotal')
+M('C02', 'gauge chdiff sign', NPC, 'chdiff = newqtotal - self.qtotal',
+  'chdiff = self.qtotal - newqtotal', 'CHARGE-gauge')
+M('C02', 'gauge forgets old_qconj factor', NPC,
+  'new_charges = self.legs[ax].charges + old_qconj * chdiff',
+  'new_charges = self.legs[ax].charges + chdiff', 'CHARGE-gauge')
+M('C02', 'svd completes qtotal_L with sum', NPC,
+  'qtotal_L = a.chinfo.make_valid(a.qtotal - qtotal_R)',
+  'qtotal_L = a.chinfo.make_valid(a.qtotal + qtotal_R)', 'CHARGE-qtotal')
+M('C02', 'extend without set_shape', NPC,
+  """        extended.legs[ax] = extended.legs[ax].extend(extra)
+        extended._set_shape()""", """        extended.legs[ax] = extended.legs[ax].extend(extra)""",
+  'COUPLED-shape')
+M('C02', 'twin: flag written before the data in itranspose', NPC,
+  """        self._qdata = np.array(self._qdata[:, axes_arr], order='C')
+        self._qdata_sorted = False""",
+  """        self._qdata_sorted = False
+        self._qdata = np.array(self._qdata[:, axes_arr], order='C')""", None, 'silent')
+M('C02', 'twin: outer total charge with swapped summands', NPC,
+  'qtotal = a.chinfo.make_valid(a.qtotal + b.qtotal)\n    res = Array(a.legs + b.legs, dtype, qtotal)',
+  'qtotal = a.chinfo.make_valid(b.qtotal + a.qtotal)\n    res = Array(a.legs + b.legs, dtype, qtotal)',
+  None, 'silent')
+
+# ---------------------------------------------------------------- C05
+M('C05', 'svd new leg from qtotal_L', NPC,
+  'new_leg_charges = (qtotal_R - a.legs[1].get_charge(qi_R)) * inner_qconj',
+  'new_leg_charges = (qtotal_L - a.legs[1].get_charge(qi_R)) * inner_qconj', 'CHARGE-factor')
+M('C05', 'svd new_leg_L not conjugated', NPC, 'new_leg_L = new_leg_R.conj()',
+  'new_leg_L = new_leg_R', 'CHARGE-factor')
+M('C05', 'svd inner_qconj not applied to charges', NPC,
+  'new_leg_charges = (qtotal_R - a.legs[1].get_charge(qi_R)) * inner_qconj',
+  'new_leg_charges = (qtotal_R - a.legs[1].get_charge(qi_R))', 'CHARGE-factor')
+M('C05', 'qr qtotal_Q shift sign', NPC,
+  'inner_leg.charges - inner_leg.qconj * qtotal_Q', 'inner_leg.charges + inner_leg.qconj * qtotal_Q',
+  'CHARGE-factor')
+M('C05', 'qr R total charge', NPC, 'a.chinfo.make_valid(a.qtotal - q.qtotal)',
+  'a.chinfo.make_valid(a.qtotal + q.qtotal)', 'CHARGE-factor')
+M('C05', 'qr flip forgets qconj', NPC,
+  """        inner_leg.sorted = False
+        inner_leg.qconj = inner_qconj""", """        inner_leg.sorted = False""", 'CHARGE-factor')
+M('C05', 'orthogonal_columns right charges sign', NPC,
+  'right_qconj * (a.qtotal - left_leg.get_charge(right_kept_blocks))',
+  'right_qconj * (a.qtotal + left_leg.get_charge(right_kept_blocks))', 'CHARGE-factor')
+M('C05', 'svd splits VH on wrong axis', NPC, 'VH = VH.split_legs(1)', 'VH = VH.split_legs(0)',
+  'FACT-pipes')
+M('C05', 'svd inner labels swapped', NPC, 'U.iset_leg_labels([a_labels[0], labL])',
+  'U.iset_leg_labels([a_labels[0], labR])', 'FACT-labels')
+M('C05', 'lq forgets to reverse inner labels', NPC, 'inner_labels=inner_labels[::-1]',
+  'inner_labels=inner_labels', 'FACT-lq')
+M('C05', 'svd always overwrites', NPC, 'overwrite_a = len(piped_axes) > 0', 'overwrite_a = True',
+  'FACT-overwrite')
+M('C05', 'twin: qr shift written with commuted product', NPC,
+  'inner_leg.charges - inner_leg.qconj * qtotal_Q', 'inner_leg.charges - qtotal_Q * inner_leg.qconj',
+  None, 'silent')
+
+# ---------------------------------------------------------------- C06
+M('C06', 'outer_conj literal direction (original defect)', CH, 'res.qconj = -self.qconj\n        res._set_charges',
+  'res.qconj = -1\n        res._set_charges', 'DIR-literal')
+M('C06', 'LegCharge.conj also negates charges', CH,
+  """        res = self.copy()  # shallow copy
+        res.qconj = -self.qconj
+        return res""", """        res = self.copy()  # shallow copy
+        res.qconj = -self.qconj
+        res.charges = self.chinfo.make_valid(-self.charges)
+        return res""", 'DIR-algebra')
+M('C06', 'LegPipe.conj forgets incoming legs', CH,
+  '        res.legs = tuple([l.conj() for l in self.legs])\n', '', 'DIR-algebra')
+M('C06', 'extend negates when directions agree', CH, 'if self.qconj == extra.qconj:',
+  'if self.qconj != extra.qconj:', 'DIR-sign-conditional')
+M('C06', 'fusion rule drops pipe direction', CH,
+  'legcharges = [(self.qconj * l.qconj) * l.charges for l in self.legs]',
+  'legcharges = [l.qconj * l.charges for l in self.legs]', 'FUSION-rule')
+M('C06', 'sort permutation not applied to block sizes', CH,
+  '            blocksizes = blocksizes[perm_qind]\n', '', 'FUSION-perm')
+M('C06', 'combine_legs uses incoming column for block index', NPC,
+  'qdata[:, ax] = pipes[j].q_map[q_map_inds[j], 2]', 'qdata[:, ax] = pipes[j].q_map[q_map_inds[j], 3]',
+  'QMAP-roles')
+M('C06', 'split worker extent reversed', NPC, 'q_map[:, 1] - q_map[:, 0]', 'q_map[:, 0] - q_map[:, 1]',
+  'QMAP-roles')
+M('C06', 'twin: conj via unary minus written as multiplication', CH,
+  """        res = self.copy()  # shallow copy
+        res.qconj = -self.qconj
+        return res""", """        res = self.copy()  # shallow copy
+        res.qconj = (-1) * self.qconj
+        return res""", None, 'silent')
